@@ -1,4 +1,5 @@
 """Properties about content and text decoding: C13 C14 C15 C16."""
+import gzip
 import re
 import struct
 import zlib
@@ -100,8 +101,36 @@ def zlib_lookalike(rng):
     return bytes([first]) + struct.pack("<HH", ln, ln ^ 0xFFFF) + d1 + tail, d1 + d2
 
 
+def lookalike_body(rng):
+    """content that itself looks like something the library handles: a complete gzip member, zlib or bare deflate stream, a
+    chunked body, an HTTP message, magic numbers alone — a coding is undone as often as it is listed, never once more
+    because of what the decoded bytes look like (eighth round: gzip decoded a second time when the result started `1F 8B 08`)"""
+    inner = rng.pick([b"inner file contents, 49 bytes long, not ASCII: \xff\x00", b"", b"x" * 300, gen.rand_bytes(rng, 40)])
+    k = rng.below(9)
+    if k == 0:
+        return gzip.compress(inner)
+    if k == 1:
+        return zlib.compress(inner)
+    if k == 2:
+        co = zlib.compressobj(6, zlib.DEFLATED, -15)
+        return co.compress(inner) + co.flush()
+    if k == 3:
+        return gzip.compress(gzip.compress(inner))
+    if k == 4:
+        return b"5\r\nhello\r\n0\r\n\r\n"
+    if k == 5:
+        return b"HTTP/1.1 200 OK\r\nContent-Encoding: gzip\r\nContent-Length: 3\r\n\r\nabc"
+    if k == 6:
+        return rng.pick([b"\x1f\x8b\x08", b"\x1f\x8b\x08\x00", b"\x78\x9c", b"\x78\x01", b"\x1f\x8b\x08\x00\x00\x00\x00\x00\x00\x03"]) + gen.rand_bytes(rng, rng.below(20))
+    if k == 7:
+        return gzip.compress(inner)[:-4]         # a gzip member cut short, as content
+    return zlib.compress(inner) + b"trailing"
+
+
 def rand_body(rng):
-    k = rng.below(12)
+    k = rng.below(13)
+    if k == 12:
+        return lookalike_body(rng)
     if k == 0:
         return b""
     if k == 1:
